@@ -77,6 +77,70 @@ Proof.
   destruct (sem_block W run_line for_words set_var e n b false w); reflexivity.
 Qed.
 
+(** 2b. ... spelled out over ARBITRARY STATUS SEQUENCES: without set -e a flat body runs every
+    line, its result list is the concatenation of the lines' result vectors in order (flat_all);
+    try_run_func takes the LAST element (func_call_status = last_or_zero). So when each line yields
+    one status [st l], the status of the call is [st] of the LAST line of the body -- whatever
+    failed before it (it is NOT the status of the last failing line). *)
+Theorem C15_func_status_seq :
+  forall (W : Type) (run_line : W -> str -> W * list Z) (eoe : W -> bool)
+         (rif : ttree -> bool -> W -> outcome W) (rfor rwh : ttree -> W -> outcome W) (st : str -> Z),
+  (forall w, eoe w = false) -> (forall w l, snd (run_line w l) = (st l :: nil)) ->
+  forall lines last w, forallb wf_line (lines ++ (last :: nil)) = true ->
+  match exp_loop W run_line eoe rif rfor rwh false (map cmd_node (lines ++ (last :: nil))) w nil with
+  | Done _ crs _ _ => func_call_status crs = st last /\ crs = map st (lines ++ (last :: nil))
+  | _ => False
+  end.
+Proof.
+  intros W run_line eoe rif rfor rwh st Hoff Hst lines last w Hwf.
+  rewrite (flat_all W run_line eoe rif rfor rwh Hoff _ Hwf w nil).
+  pose proof (run_all_statuses W run_line st Hst (lines ++ (last :: nil)) w) as H.
+  destruct (run_all W run_line (lines ++ (last :: nil)) w) as [w1 crs]. cbn [snd app] in *. subst crs.
+  split; [|reflexivity]. rewrite map_app. cbn [map]. unfold func_call_status.
+  induction (map st lines) as [|x l IH]; [reflexivity|]. cbn [app].
+  assert (Hne : (l ++ (st last :: nil))%list <> nil) by (destruct l; discriminate).
+  destruct (l ++ (st last :: nil))%list as [|y r] eqn:E; [congruence|]. exact IH.
+Qed.
+
+(** the same through the shell-state model and the generated grammar (instances): bodies
+    `fail7 ; ok`, `ok ; fail7 ; ok`, a nested call, and callers that look at the status with
+    `&&`, `||`, `if` and as the script's last command. *)
+Definition fs_ext (l : str) : Z := if str_eqb l (S2 "fail7") then 7%Z else 0%Z.
+Definition fs_files (p : str) : option str :=
+  if str_eqb p (S2 "d.sh") then Some (S2 "function f {
+  fail7
+  ok1
+}
+function g {
+  ok2
+  fail7
+  ok3
+}
+function h {
+  f
+  fail7
+}
+f && chained
+f || notreached
+g && chained2
+h || recovered
+if f
+then_branch
+else
+else_branch
+fi
+g
+") else None.
+Example C15_func_status_instances :
+  (let '(w, st) := run_script fs_ext fs_files 8 30 (mk_shs false nil nil) (S2 "d.sh") in (s_log w, st)) =
+  ([S2 "fail7"; S2 "ok1"; S2 "chained";
+    S2 "fail7"; S2 "ok1";
+    S2 "ok2"; S2 "fail7"; S2 "ok3"; S2 "chained2";
+    S2 "fail7"; S2 "ok1"; S2 "fail7"; S2 "recovered";
+    S2 "fail7"; S2 "ok1"; S2 "then_branch";
+    S2 "ok2"; S2 "fail7"; S2 "ok3"], 0%Z).
+Proof. vm_compute. reflexivity. Qed.
+
 (** 3. set -e. In a flat script (commands only) the transcribed loop, with
     exit_on_error on, stops after the first failing command ... *)
 Theorem C15_sete_flat :
@@ -275,6 +339,7 @@ Print Assumptions C15_args.
 Print Assumptions C15_args_newline_refuted.
 Print Assumptions C15_func_status.
 Print Assumptions C15_func_status_list.
+Print Assumptions C15_func_status_seq.
 Print Assumptions C15_sete_flat.
 Print Assumptions C15_sete.
 Print Assumptions C15_sete_stops.
